@@ -1081,6 +1081,13 @@ func main() {
 		facts["attributeInstallCalls"] = l
 		return "def attributeInstallCalls : List Bytes := " + bytesList(l)
 	})
+	// ---- tools/filetools.go (C09): an object is put into place by ONE rename; nothing is moved aside first
+	emit("renameIntoPlaceCalls", func() string {
+		tp := safeLoad(filepath.Join(repo, "tools"))
+		l := append(tp.callsWithConds("RenameFileCopyPermissions", "", "os.*"), tp.callsWithConds("RenameFileCopyPermissions", "", "RobustRename")...)
+		facts["renameIntoPlaceCalls"] = l
+		return "def renameIntoPlaceCalls : List Bytes := " + bytesList(l)
+	})
 	// ---- commands/command_unlock.go (C16): the guard of `unlock --id` finds the lock's path in the local cache
 	// and, failing that, asks the server
 	emit("unlockByIdLookups", func() string {
